@@ -18,7 +18,7 @@ if __name__ == "__main__":
         for o in obs:
             if not ok(o): bad.setdefault(o.name, []).append((off, "FAIL " + str(o.status)))
             elif o.kind != "canary" and o.backend == "z3-default": bad.setdefault(o.name, []).append((off, f"mbqi-only {o.secs:.1f}s"))
-            elif o.secs > 12: bad.setdefault(o.name, []).append((off, f"slow {o.backend} {o.secs:.1f}s"))
+            elif o.secs > 6: bad.setdefault(o.name, []).append((off, f"slow {o.backend} {o.secs:.1f}s"))
         for q, w in und: bad.setdefault(q, []).append((off, "UNDECIDED " + w))
         print(f"offset {off}: {len(obs)} obligations", flush=True)
     for n, v in sorted(bad.items()): print(n, v)
